@@ -351,7 +351,7 @@ fn transcript_one<B: FA, H: ElementHasher<BaseField = B> + Send + Sync>(c: &TCas
         if let Some(Event::DrawIntegers(..)) = expected_full.last() {
             let mut n2 = proof.pow_nonce;
             let mut found = None;
-            for _ in 0..4096 {
+            for _ in 0..64 {
                 n2 = n2.wrapping_add(1);
                 let mut spec_n = spec.clone();
                 let k = spec_n.len();
